@@ -179,6 +179,7 @@ func runCase(stream string, w *World) result {
 	var prevEvs [][2]string
 	gateRefused := false
 	sizeTag := ""
+	fairTag := ""
 	jobQueue, podJob := map[string]string{}, map[string]string{}
 	for _, j := range w.Jobs {
 		jobQueue[j.Name] = j.Queue
@@ -197,8 +198,21 @@ func runCase(stream string, w *World) result {
 			if !sharesConsistent(ex, rec.Shares) {
 				exact = false
 				res.stats["share-recompute-inconsistent"]++
+				if fairTag == "" {
+					fairTag = fmt.Sprintf(" FAIR-SHARE-NOT-REPRODUCIBLE(c%d: the session's shares differ from a second computation on the same queue attributes)", c)
+				}
+				if os.Getenv("C15_DEBUG_EXACT") != "" {
+					fmt.Fprintf(os.Stderr, "INEXACT recompute c%d %s\n  state %s\n  ex=%v\n  ssn=%v\n", c, Describe(w0), w.Canon(), ex, rec.Shares)
+				}
 			}
 			if c == 0 {
+				if v := fairShareVariants(w, b, fairShareSamples); len(v) > 1 {
+					exact = false
+					res.stats["fair-share-not-reproducible"]++
+					if fairTag == "" {
+						fairTag = fmt.Sprintf(" FAIR-SHARE-NOT-REPRODUCIBLE(c0: %s | %s)", v[0], v[1])
+					}
+				}
 				shares0 = ex
 				var why string
 				params, why = paramsTerm(w, ids, ex)
@@ -213,6 +227,12 @@ func runCase(stream string, w *World) result {
 					if e.Fair != shares0[q].Fair || e.Request != shares0[q].Request {
 						exact = false
 						res.stats["shares-changed-between-cycles"]++
+						if fairTag == "" {
+							fairTag = fmt.Sprintf(" FAIR-SHARE-NOT-REPRODUCIBLE(c%d: %s fair %g request %g, in c0 fair %g request %g)", c, q, e.Fair, e.Request, shares0[q].Fair, shares0[q].Request)
+						}
+						if os.Getenv("C15_DEBUG_EXACT") != "" {
+							fmt.Fprintf(os.Stderr, "INEXACT changed c%d %s\n  state %s\n  queue %s now=%v first=%v\n", c, Describe(w0), w.Canon(), q, e, shares0[q])
+						}
 						break
 					}
 				}
@@ -346,6 +366,15 @@ func runCase(stream string, w *World) result {
 		exact = false
 	}
 	streamCode := 0
+	notCompared := ""
+	if stream == "class" && !exact {
+		// the model has ONE constant fair share per queue; for this world the real plugin has no such thing (its fair
+		// shares are not reproducible from call to call, or the multiplier is not one of the known fractions): no
+		// correspondence is claimed - the case is emitted as monitor-only (stream code 1), the label keeps stream=class
+		streamCode = 1
+		notCompared = "(inexact, not compared)"
+		res.stats["class:inexact-not-compared"]++
+	}
 	if stream != "class" {
 		streamCode = 1
 		if stream == "hier" {
@@ -379,12 +408,18 @@ func runCase(stream string, w *World) result {
 		lasso += " VICTIM-REBOUND-BEFORE-ITS-RECLAIMER"
 	}
 	lasso += sizeTag
+	if !strings.Contains(lasso, "FAIR-SHARE-NOT-REPRODUCIBLE") {
+		lasso += fairTag
+	}
+	outside += notCompared
 	res.label = fmt.Sprintf("stream=%s%s %s state0{%s} =>%s  %s", stream, outside, Describe(w0), tr.Cycles[0].Before, lasso, strings.Join(cycDesc, "  |  "))
 	res.stats[fmt.Sprintf("%s:cycles=%d", stream, len(tr.Cycles))]++
 	res.stats[fmt.Sprintf("%s:evicting-cycles=%d", stream, tr.EvictingCycles)]++
 	res.stats[stream+":runs"]++
 	if !exact && stream == "class" {
 		res.stats["class:inexact"]++
+	} else if stream == "class" {
+		res.stats["class:compared"]++
 	}
 	if tr.LassoFrom >= 0 {
 		res.stats[stream+":LASSO"]++
@@ -430,6 +465,18 @@ func lassoTags(w0 *World, tr *Trace) string {
 		tags += " SIM-REPLACED-OWN-DEPT"
 	} else if other {
 		tags += " SIM-REPLACED"
+	}
+	// mechanism tags (decided on the mechanism, not on a sample of runs; order.go):
+	//   UNSTABLE(push-order ...)          in a state of the loop (or in the state a committed eviction of the loop was
+	//                                     simulated on) the pop order of the real utils.JobsOrderByQueues depends on the
+	//                                     order in which the same jobs are pushed = on Go map iteration order
+	//   FAIR-SHARE-NOT-REPRODUCIBLE(...)  in a state of the loop the real resource_division.SetResourcesShare gives
+	//                                     different fair shares for the same queue attributes from call to call
+	if od := orderDependence(w0, tr); od != "" {
+		tags += " UNSTABLE(push-order " + od + ")"
+	}
+	if fs := fairShareDependence(w0, tr); fs != "" {
+		tags += " FAIR-SHARE-NOT-REPRODUCIBLE(" + fs + ")"
 	}
 	// the same world again, 9 times: any run whose decisions differ from this one makes the world UNSTABLE
 	sig := func(t *Trace) string {
@@ -545,7 +592,7 @@ func RunAll(dir string, seed uint64, n int, tier string, hierN, sizedN int) erro
 			fmt.Fprintf(os.Stderr, "LASSO on the real scheduler:\n%s\n", r.dump)
 		}
 	}
-	out.Stats["rule"] = "EXPLORATION: bounded closed-system runs (<= 12 cycles; an evicted pod is pending again, a pipelined (nominated) pod is simply pending again in the next cycle, a bind completes; lasso = a canonical world state seen before with an eviction in between) of the real actions (allocate, consolidation, reclaim, preempt[, stalegangeviction]) with AllowConsolidatingReclaim, MaxNumberConsolidationPreemptees and the proportion plugin's relcaimerSaturationMultiplier varied. World shapes: (1) fixed corpus, run first: 13 flat / two-level worlds (gate ping-pong, equal-priority preemption, the minimal worlds of the known findings) + 6 hierarchical worlds (the world of seeded/C15-2/README.md: two departments, the reclaimer's department with two leaf queues, a 3-GPU pending job of the sibling queue first in the department next to a 1-GPU job entitled to reclaim; variations: no big job, big job in the victim's department, three departments, big job schedulable, department limit instead of quota) + 360 enumerated hierarchical worlds (hierFamily: position / size of the big job x own running job x how it gets in front x overshoot of the victim's department x {plain, department limit, three departments, 2-GPU reclaimer, no consolidating reclaim}); (2) n generated worlds: stream 'class' (1/2: <= 4 nodes, 2-4 leaf queues under 1-2 departments, <= 8 single-pod 1-GPU preemptible jobs, no limits: the class of theorem C15_rank_decreases, refinement-checked against Model/ClosedSystem.v incl. order consistency), stream 'general' (1/4: gangs, fractional pods, CPU as second resource, limits, non-preemptible jobs; 1/4 class-shaped with queue priorities / over-subscribed quotas; monitor only); (3) stream 'hier' random worlds (GenHier: 1-2 nodes of 4-8 GPUs, 2-3 departments with quota and sometimes limit and priority, 1-3 leaf queues each with quotas that may over-subscribe the department, limits, over-quota weights 0-3, queue priorities, 4-12 single-pod jobs of 1-4 GPUs with varied priorities / creation times, half of them built around a big pending job of a sibling leaf queue): thorough tier n/5, quick tier none (flag -hier K). (4) SIZED worlds (sized.go): jobs whose size is not a number of whole GPUs - gpu-memory requests (devices of memory 100 as test_utils' fake nodes report it, and 16 / 40 / 80 GiB devices), gpu-fraction requests, both with gpu-fraction-num-devices 1-3 (pods built through core.PodSpec -> the real pod_info.NewTaskInfo) - against ELASTIC running jobs (minAvailable < pods) in queues with deserved quota / over-quota weight 0 / fair share at the boundary: stream 'sized' = 9 fixed worlds (sized-elastic-gpumem-2dev = the world of seeded/C15-3/README.md exactly, sized-elastic-gpumem-1dev = its one-device control, 3 devices, the same sizes as gpu-fraction requests, 16 GiB devices, a gang as victim, a reclaimer that really fits its fair share, sized-kinds = one pending job of every kind) + 144 enumerated neighbours (sizedFamily: kind x devices 1-3 x sizes x quotas x which job is older; -probe sizedfam:<k>), run in every tier, no lasso and no size disagreement on the unchanged tree, identical over 6 repeated runs; no listed finding covers stream 'sized'. Random sized worlds (GenSized: 1-2 nodes of 2-4 GPUs, 2-3 queues, 3-7 jobs of every kind, 1-3 pods, gangs and elastic jobs, most of them running with their GPU groups; -probe sized:<seed>:<k>) extend the general stream and are labelled stream=general(sized): quick tier n/10, thorough tier n/5 (flag -sized K); on the unchanged tree about 0.6% end in a lasso (survey over seeds 1-3: 50 of 8000, the count varies by one or two between runs), every one of the form bind(X) ... evict(X) inside one cycle except one of the period-2 form (evicted and moved, bound back next cycle) - the two forms of known finding C15-rebound-pod-evicted-again -, no size disagreement. SIZE OBSERVATIONS (every stream, every cycle, every action): right before an action the harness asks the real podgroup_info.GetTasksToAllocate / GetTasksToAllocateInitResource (the value proportion.buildReclaimerInfo hands the reclaim gate) for every job with pending pods; after the action, for every job of which exactly those pods were placed, the sum of utils.QuantifyResourceRequirements(AcceptedResource) is what the queue was charged; monitor: charged <= counted + 0.01 GPU per shared device (the charged portion of a device is rounded up to 1/100), and counted <= charged when the pods sit on devices of the memory the session divides by (label tags SIZE-UNDERCOUNTED / SIZE-OVERCOUNTED; counts size:<kind>:<action>[:evicting]:<outcome>). Lassos on the unchanged tree: corpus and enumerated hierarchical worlds 0 of 366; random hierarchical worlds 27 of 6000 (18 with tag SIM-REPLACED*: the committed scenario had evicted and re-placed other pods; 9 + 1 of those UNSTABLE: the decisions of the same world differ from run to run, they depend on Go map iteration order) - proposed findings, see checks.d; general stream about 8 per 1500 (known finding). Lasso tags are computed from what is observable without hooks (framework.EventHandler on the session's statements, re-running the world 10 times). Non-trivial = the run contains at least one evicting cycle; distinct by world and decisions."
+	out.Stats["rule"] = "EXPLORATION: bounded closed-system runs (<= 12 cycles; an evicted pod is pending again, a pipelined (nominated) pod is simply pending again in the next cycle, a bind completes; lasso = a canonical world state seen before with an eviction in between) of the real actions (allocate, consolidation, reclaim, preempt[, stalegangeviction]) with AllowConsolidatingReclaim, MaxNumberConsolidationPreemptees and the proportion plugin's relcaimerSaturationMultiplier varied. World shapes: (1) fixed corpus, run first: 13 flat / two-level worlds (gate ping-pong, equal-priority preemption, the minimal worlds of the known findings) + 6 hierarchical worlds (the world of seeded/C15-2/README.md: two departments, the reclaimer's department with two leaf queues, a 3-GPU pending job of the sibling queue first in the department next to a 1-GPU job entitled to reclaim; variations: no big job, big job in the victim's department, three departments, big job schedulable, department limit instead of quota) + 360 enumerated hierarchical worlds (hierFamily: position / size of the big job x own running job x how it gets in front x overshoot of the victim's department x {plain, department limit, three departments, 2-GPU reclaimer, no consolidating reclaim}); (2) n generated worlds: stream 'class' (1/2: <= 4 nodes, 2-4 leaf queues under 1-2 departments, <= 8 single-pod 1-GPU preemptible jobs, no limits: the class of theorem C15_rank_decreases, refinement-checked against Model/ClosedSystem.v incl. order consistency), stream 'general' (1/4: gangs, fractional pods, CPU as second resource, limits, non-preemptible jobs; 1/4 class-shaped with queue priorities / over-subscribed quotas; monitor only); (3) stream 'hier' random worlds (GenHier: 1-2 nodes of 4-8 GPUs, 2-3 departments with quota and sometimes limit and priority, 1-3 leaf queues each with quotas that may over-subscribe the department, limits, over-quota weights 0-3, queue priorities, 4-12 single-pod jobs of 1-4 GPUs with varied priorities / creation times, half of them built around a big pending job of a sibling leaf queue): thorough tier n/5, quick tier none (flag -hier K). (4) SIZED worlds (sized.go): jobs whose size is not a number of whole GPUs - gpu-memory requests (devices of memory 100 as test_utils' fake nodes report it, and 16 / 40 / 80 GiB devices), gpu-fraction requests, both with gpu-fraction-num-devices 1-3 (pods built through core.PodSpec -> the real pod_info.NewTaskInfo) - against ELASTIC running jobs (minAvailable < pods) in queues with deserved quota / over-quota weight 0 / fair share at the boundary: stream 'sized' = 9 fixed worlds (sized-elastic-gpumem-2dev = the world of seeded/C15-3/README.md exactly, sized-elastic-gpumem-1dev = its one-device control, 3 devices, the same sizes as gpu-fraction requests, 16 GiB devices, a gang as victim, a reclaimer that really fits its fair share, sized-kinds = one pending job of every kind) + 144 enumerated neighbours (sizedFamily: kind x devices 1-3 x sizes x quotas x which job is older; -probe sizedfam:<k>), run in every tier, no lasso and no size disagreement on the unchanged tree, identical over 6 repeated runs; no listed finding covers stream 'sized'. Random sized worlds (GenSized: 1-2 nodes of 2-4 GPUs, 2-3 queues, 3-7 jobs of every kind, 1-3 pods, gangs and elastic jobs, most of them running with their GPU groups; -probe sized:<seed>:<k>) extend the general stream and are labelled stream=general(sized): quick tier n/10, thorough tier n/5 (flag -sized K); on the unchanged tree about 0.6% end in a lasso (survey over seeds 1-3: 50 of 8000, the count varies by one or two between runs), every one of the form bind(X) ... evict(X) inside one cycle except one of the period-2 form (evicted and moved, bound back next cycle) - the two forms of known finding C15-rebound-pod-evicted-again -, no size disagreement. SIZE OBSERVATIONS (every stream, every cycle, every action): right before an action the harness asks the real podgroup_info.GetTasksToAllocate / GetTasksToAllocateInitResource (the value proportion.buildReclaimerInfo hands the reclaim gate) for every job with pending pods; after the action, for every job of which exactly those pods were placed, the sum of utils.QuantifyResourceRequirements(AcceptedResource) is what the queue was charged; monitor: charged <= counted + 0.01 GPU per shared device (the charged portion of a device is rounded up to 1/100), and counted <= charged when the pods sit on devices of the memory the session divides by (label tags SIZE-UNDERCOUNTED / SIZE-OVERCOUNTED; counts size:<kind>:<action>[:evicting]:<outcome>). Lassos on the unchanged tree: corpus and enumerated hierarchical worlds 0 of 366; random hierarchical worlds 27 of 6000 (18 with tag SIM-REPLACED*: the committed scenario had evicted and re-placed other pods; 9 + 1 of those UNSTABLE: the decisions of the same world differ from run to run, they depend on Go map iteration order) - proposed findings, see checks.d; general stream about 8 per 1500 (known finding). Lasso tags are decided on the mechanism, the same in every stream and in the search rounds: SIM-REPLACED* (framework.EventHandler on the session's statements), UNSTABLE(push-order ...) (the real utils.JobsOrderByQueues filled through PushJob with the same jobs in 40+ orders on the states of the loop and on the states its evictions were simulated on gives different pop sequences), FAIR-SHARE-NOT-REPRODUCIBLE(...) (32 calls of the real SetResourcesShare on the same attributes disagree), plus the sample tag UNSTABLE(k/10) from re-running the world. Class-stream worlds whose fair shares are not reproducible are NOT compared with the model (label stream=class(inexact, not compared), counts class:inexact-not-compared / class:compared); the monitor stays on. Non-trivial = the run contains at least one evicting cycle; distinct by world and decisions."
 	return out.Flush()
 }
 
